@@ -34,6 +34,34 @@ PROPS = {
     },
 }
 
+PROPS['C16'] = {
+    'level': 'proof',
+    'pkgs': ['h40'],
+    'text': 'Nomenclature() equals CVSS-B[T][E] computed from the Get values of E and of the 14 environmental metrics, on every reachable v4.0 object',
+    'bounds': 'none: all 2^72 raw states constrained by the reachability invariant (267,483,013,447,680,000 objects)',
+    'solvers': {'quick': ['z3'], 'thorough': ['z3', 'z3new', 'cvc5']},
+}
+PROPS['C15'] = {
+    'level': 'proof',
+    'pkgs': ['hcross'],
+    'text': 'Rating of the 3.0, 3.1 and 4.0 packages equals the specification scale and the three agree, for every float64 bit pattern except NaN (symbolic float64, IEEE comparisons in the solver)',
+    'bounds': 'none: the score is one symbolic (_ FloatingPoint 11 53) value',
+    'solvers': {'quick': ['z3'], 'thorough': ['z3', 'z3new', 'cvc5']},
+}
+FP_NOTE = ('Floating point is decided by exhaustive case analysis with solver-evaluated IEEE arithmetic: the solver enumerates the tuples of the '
+           'integer->float frontier per bit-field group (final unsat = coverage certificate), the cube set is their product (a superset of the reachable tuples), '
+           'per cube the FP expression over literal operands is folded by z3\'s rewriter and cross-checked by a Python IEEE-754 evaluation; failing cubes are '
+           'confirmed by a solver query for a concrete object and replayed natively.')
+PROPS['C03'] = {
+    'level': 'proof',
+    'pkgs': ['h30', 'h31'],
+    'text': 'v3.0/v3.1 BaseScore, TemporalScore, EnvironmentalScore equal the exact-rational evaluation of the FIRST equations (and Impact/Exploitability within 1e-9) on every reachable object. ' + FP_NOTE,
+    'bounds': 'none: complete over the 573,308,928,000 objects of each version (all frontier cubes enumerated, coverage certified by the solver)',
+    'solvers': {'quick': ['z3'], 'thorough': ['z3']},
+    'per_harness': {'.': {'handler': 'fp_tabulate'}},
+    'technique': 'SMT-driven cube-and-conquer over the SSA of the real scoring code: solver-enumerated frontier cubes (AllSAT + coverage certificate), solver-folded floating point per cube, exact-rational specification oracle',
+    'assumptions': ['oracle: /verif/spec/cvss_spec.py, exact rational transcription of the FIRST v3.0/v3.1 equations'],
+}
 
 def harnesses(pid, tier, hf):
     cfg = PROPS[pid]
